@@ -12,4 +12,22 @@ const ruleCommon = "one evaluation = one simulated execution (plan generated fro
 var props = map[string]propSpec{
 	"C01": {ID: "C01", Level: "exploration", Rule: ruleCommon, Assume: commonAssume,
 		Scenarios: []scenarioBudget{{Name: "c01", QuickSec: 40, ThoroughSec: 900}}},
+	"C02": {ID: "C02", Level: "exploration", Rule: ruleCommon, Assume: commonAssume,
+		Scenarios: []scenarioBudget{{Name: "c02", QuickSec: 40, ThoroughSec: 900}}},
+	"C03": {ID: "C03", Level: "fault_enumeration", Rule: ruleCommon + "; fault points are enumerated: run index -> (conversation 0..7, cut kind FIN/RST x direction, byte offset | Close at op k | server kill/close at op k), thorough walks every byte offset of each conversation", Assume: commonAssume,
+		Scenarios: []scenarioBudget{{Name: "c03", QuickSec: 40, ThoroughSec: 1200}}},
+	"C04": {ID: "C04", Level: "exploration", Rule: ruleCommon, Assume: commonAssume,
+		Scenarios: []scenarioBudget{{Name: "c04", QuickSec: 40, ThoroughSec: 900}}},
+	"C05": {ID: "C05", Level: "exploration", Rule: ruleCommon, Assume: commonAssume,
+		Scenarios: []scenarioBudget{{Name: "c05", QuickSec: 40, ThoroughSec: 900}}},
+	"C09": {ID: "C09", Level: "exploration", Rule: ruleCommon, Assume: commonAssume,
+		Scenarios: []scenarioBudget{{Name: "c09", QuickSec: 40, ThoroughSec: 900}}},
+	"C10": {ID: "C10", Level: "exploration", Rule: ruleCommon + "; accept mode (non-poll, poll fallback, poll epoll-model) and fault kind (stream close, FIN, RST, Conn.Close, server kill) are enumerated by run index", Assume: commonAssume,
+		Scenarios: []scenarioBudget{{Name: "c10", QuickSec: 40, ThoroughSec: 900}}},
+	"C11": {ID: "C11", Level: "exploration", Rule: ruleCommon, Assume: commonAssume,
+		Scenarios: []scenarioBudget{{Name: "c11", QuickSec: 40, ThoroughSec: 900}}},
+	"C19": {ID: "C19", Level: "exploration", Rule: ruleCommon, Assume: commonAssume,
+		Scenarios: []scenarioBudget{{Name: "c19", QuickSec: 40, ThoroughSec: 900}}},
+	"C06": {ID: "C06", Level: "exploration", Rule: ruleCommon, Assume: commonAssume,
+		Scenarios: []scenarioBudget{{Name: "c06", QuickSec: 40, ThoroughSec: 900}}},
 }
